@@ -204,7 +204,8 @@ def check(ctx: Ctx) -> None:
                 out = run_hook(model, cer_hook, cers.qualname, data)
                 ctx.count()
                 if out[0] == "raise":
-                    ok = spelling != mvalue  # rejecting an unusual spelling is fine, rejecting the canonical one is not
+                    # the loader is documented to be case-insensitive (upper, lower, capitalised); only padded text may be rejected
+                    ok = isinstance(spelling, str) and spelling != spelling.strip()
                     got = out[1]
                 else:
                     got = out[1].fields.get("requirement_constraints", {}).get("1") if isinstance(out[1], Obj) else out[1]
